@@ -13,7 +13,7 @@ import (
 func init() {
 	vfRegister(&vfProp{
 		id:       "C14",
-		classes:  []string{"os", "os-alloc", "rs", "rs-alloc", "rs-park", "rs-park"},
+		classes:  []string{"os", "os-alloc", "rs", "rs-alloc", "rs-park", "rs-park", "os-halfclose", "rs-halfclose"},
 		gen:      c14Gen,
 		exec:     c14Exec,
 		valid:    c14Valid,
@@ -35,6 +35,14 @@ func c14Gen(class string, seed uint64, tier string) *vfScenario {
 		sc.Cfg["kind"], sc.Cfg["alloc"] = 1, 1
 	case "rs-park":
 		sc.Cfg["kind"], sc.Cfg["parkdata"] = 1, 1
+		sc.Cfg["alloc"] = int64(rng.IntN(2))
+	case "os-halfclose":
+		// the client sends its bursts and half-closes without reading a single acknowledgement first
+		sc.Cfg["kind"], sc.Cfg["halfclose"] = 0, 1
+		sc.Cfg["alloc"] = int64(rng.IntN(2))
+	case "rs-halfclose":
+		sc.Cfg["kind"], sc.Cfg["halfclose"] = 1, 1
+		sc.Cfg["parkdata"] = int64(rng.IntN(2))
 		sc.Cfg["alloc"] = int64(rng.IntN(2))
 	}
 	sc.Cfg["hopt"] = 1
